@@ -190,6 +190,12 @@ func c11Render(s reporter.Summary) string {
 	if err := reporter.NewConsoleReporter(&cb, checks.Information, true, false).Submit(s); err != nil {
 		cb.WriteString("CONSOLE-ERROR: " + err.Error())
 	}
+	// the checkstyle report too: it groups reports by file
+	var xb bytes.Buffer
+	if err := reporter.NewCheckStyleReporter(&xb).Submit(s); err != nil {
+		xb.WriteString("CHECKSTYLE-ERROR: " + err.Error())
+	}
+	cb.WriteString("\n" + xb.String())
 	bs := s.CountBySeverity()
 	return fmt.Sprintf("%s\n%s\nfatal=%d bug=%d warning=%d info=%d", jb.String(), cb.String(), bs[checks.Fatal], bs[checks.Bug], bs[checks.Warning], bs[checks.Information])
 }
